@@ -98,6 +98,8 @@ const FLIP_SHIFT: IJ = IJ(crate::coordinate_systems::vec2::Vec2 { x: -1.0, y: 1.
 // Patterns used to rearrange the cells when shifting. This adjusts the layout so that
 // children always overlap with their parent cells.
 fn reverse_pattern(pattern: &[usize]) -> Vec<usize> {
+    #[cfg(feature = "verif")]
+    crate::verif::point(crate::verif::Kind::InitRun, 3, pattern[2]);
     let mut result = vec![0; pattern.len()];
     for (i, &val) in pattern.iter().enumerate() {
         result[val] = i;
@@ -356,6 +358,8 @@ pub fn ij_to_s_internal(input: IJ, invert_j: bool, flip_ij: bool, resolution: us
         flips[1] *= next_flips[1];
     }
 
+    #[cfg(feature = "verif")]
+    crate::verif::point(crate::verif::Kind::LazyAccess, 3, flip_ij as usize);
     let pattern: &[usize] = if flip_ij {
         &PATTERN_FLIPPED_REVERSED
     } else {
